@@ -4,3 +4,8 @@ import DateutilVerif.Properties.C02
 #print axioms C02.adjustAmpm_table
 #print axioms C02.lex_render_iso
 #print axioms C02.parse_render_iso
+#print axioms C02.parse_render_iso_offsets
+#print axioms C02.parse_render_compact
+#print axioms C02.parse_render_monthname
+#print axioms C02.parse_render_ampm
+#print axioms C02.parse_render_hms_letters
